@@ -165,6 +165,8 @@ func TestVerif_C08(t *testing.T) {
 	for i, e := range []uint64{1, 2, 3} {
 		s := vfxDefaultSpec(fmt.Sprintf("c08e%d", e), e, seed+uint64(i))
 		s.NumSlots, s.Gsfa = 12, true
+		s.NoTxIndex = i == 0 // the epoch every configuration loads: transactions without the optional position index
+		s.OddRewards = i == 0 // ... and rewards whose commission strings are empty, numbers, and not a number
 		specs = append(specs, s)
 	}
 	truths, err := vfxBuild(specs)
